@@ -4,7 +4,11 @@ package main
 
 import (
 	"database/sql"
+	"database/sql/driver"
 	"time"
+
+	"gorm.io/gorm"
+	"gorm.io/gorm/schema"
 )
 
 // ---- P1: sizes, not null, defaults, index, uniqueIndex ----
@@ -233,6 +237,85 @@ type P9v2 struct {
 }
 
 func (P9v2) TableName() string { return "p9" }
+
+// ---- P10: relation shapes and constraint options ----
+type P10Money struct{ Cents int64 }
+
+func (P10Money) GormDBDataType(db *gorm.DB, f *schema.Field) string { return "integer" }
+func (m P10Money) Value() (driver.Value, error)                     { return m.Cents, nil }
+func (m *P10Money) Scan(v interface{}) error {
+	if x, ok := v.(int64); ok {
+		m.Cents = x
+	}
+	return nil
+}
+
+type P10Co struct {
+	ID   uint   `gorm:"primaryKey"`
+	Name string `gorm:"size:20"`
+	Code string `gorm:"size:10;unique"`
+}
+type P10Dept struct {
+	ID   uint `gorm:"primaryKey"`
+	Name string
+}
+type P10Badge struct {
+	ID       uint `gorm:"primaryKey"`
+	P10EmpID uint
+	No       string
+}
+type P10Task struct {
+	ID       uint `gorm:"primaryKey"`
+	P10EmpID uint
+	Title    string
+}
+type P10Note struct {
+	ID        uint `gorm:"primaryKey"`
+	OwnerID   uint
+	OwnerType string
+	Text      string
+}
+type P10Audit struct {
+	EditorID uint
+	Editor   *P10Co
+}
+type P10Emp struct {
+	ID        uint   `gorm:"primaryKey"`
+	Name      string `gorm:"size:30"`
+	CoCode    string `gorm:"size:10"`
+	Co        P10Co  `gorm:"foreignKey:CoCode;references:Code;constraint:fk_p10_co,OnUpdate:CASCADE,OnDelete:SET NULL"`
+	ManagerID *uint
+	Manager   *P10Emp `gorm:"constraint:OnDelete:SET NULL"`
+	Badge     P10Badge
+	Tasks     []P10Task
+	Notes     []P10Note `gorm:"polymorphic:Owner"`
+	SkipID    uint
+	Skip      P10Dept  `gorm:"-:migration;foreignKey:SkipID"`
+	Audit     P10Audit `gorm:"embedded;embeddedPrefix:audit_"`
+	Money     P10Money
+	Qty       int64 `gorm:"check:qty >= 0"`
+}
+type P10Empv2 struct {
+	ID        uint   `gorm:"primaryKey"`
+	Name      string `gorm:"size:30"`
+	CoCode    string `gorm:"size:10"`
+	Co        P10Co  `gorm:"foreignKey:CoCode;references:Code;constraint:fk_p10_co,OnUpdate:CASCADE,OnDelete:SET NULL"`
+	ManagerID *uint
+	Manager   *P10Empv2 `gorm:"constraint:OnDelete:SET NULL"`
+	Badge     P10Badge  `gorm:"foreignKey:P10EmpID"`
+	Tasks     []P10Task `gorm:"foreignKey:P10EmpID"`
+	Notes     []P10Note `gorm:"polymorphic:Owner"`
+	SkipID    uint
+	Skip      P10Dept  `gorm:"-:migration;foreignKey:SkipID"`
+	Audit     P10Audit `gorm:"embedded;embeddedPrefix:audit_"`
+	Money     P10Money
+	Qty       int64 `gorm:"check:qty >= 0"`
+	DeptID    uint
+	Dept      P10Dept
+	Level     int8 `gorm:"default:1"`
+}
+
+func (P10Empv2) TableName() string { return "p10_emps" }
 
 // ---- reorder family: chain and diamond of belongs-to dependencies ----
 type RA struct {
